@@ -196,6 +196,12 @@ fn interesting_u32(max_bits: u32) -> BoxedStrategy<u32> {
     2 => (0u32..max_bits).prop_map(move |k| mask & !(1u32 << k)),
     2 => (0u32..4, any::<u8>(), any::<u32>()).prop_map(move |(pos, byte, rest)| ((rest & !(0xFFu32 << (8 * pos))) | ((byte as u32) << (8 * pos))) & mask),
     1 => prop::sample::select(vec![0u32, 1, 0x5555_5555, 0xAAAA_AAAA, 0xFFFF_FFFF, 0x0F0F_0F0F, 0x00FF_00FF, 0x0000_FFFF]).prop_map(move |v| v & mask),
+    // runs of ones / zeros at the bottom: k 2^t - 1 and k 2^t
+    2 => (0u32..=max_bits, any::<u32>(), any::<bool>()).prop_map(move |(t, hi, ones)| {
+      let low = if t >= 32 { u32::MAX } else { (1u32 << t) - 1 };
+      let v = if t >= 32 { 0 } else { hi << t };
+      (if ones { v | low } else { v }) & mask
+    }),
   ]
   .boxed()
 }
